@@ -91,7 +91,7 @@ def run(v) -> None:
     if quick:
         lens = [8, 9, 11, 13, 16, 17, 20, 23, 24, 27, 31, 32, 37, 41, 45, 48]
     for n in lens:
-        for rep in range(2 if quick else 4):
+        for rep in range(2 if quick else 12):
             z = [rng.randrange(0, 10) for _ in range(n)]
             if rep % 2 == 0:          # a pulse somewhere, also at the edges
                 w = rng.choice([1, 2, 3, 4])
